@@ -3,6 +3,7 @@ package checks
 import (
 	"bytes"
 	"fmt"
+	"os"
 	"sort"
 
 	"github.com/gogpu/naga/dxil"
@@ -57,7 +58,10 @@ var irPasses = []irPass{
 	{"dce", irstrict.PostMem2Reg, func(m *ir.Module, r *run.Rng) (*ir.Module, error) { return m, dxil.VerifRunPass("dce", m) }},
 }
 
+var c13K *run.Ctx
+
 func C13(c *run.Ctx) int {
+	c13K = c
 	n := c.N(300, 5000)
 	nIn := c.N(2, 3)
 	c.Each(n, func(i int) (string, run.Outcome) {
@@ -76,6 +80,8 @@ func C13(c *run.Ctx) int {
 				r.Witness["reduced"] = true
 				r.Witness["wgsl_unreduced"] = orig
 				o = r
+			} else if os.Getenv("VERIF_DEBUG") != "" {
+				fmt.Fprintf(os.Stderr, "reduce lost the violation: %v %s %s\n%s\n", r.V, r.Class, r.Reason, wgen.Print(prog.M).Src)
 			}
 		}
 		return id, o
@@ -141,10 +147,16 @@ func c13Eval(c *run.Ctx, id string, prog *wgen.Program, seed uint64, nIn int, on
 		}
 		ins = append(ins, inputCase{in, bufs})
 	}
+	known := func(class, reason string) bool {
+		if c != nil {
+			return c.KnownMatch(class, reason)
+		}
+		return c13K != nil && c13K.KnownPeek(class, reason) // while reducing: same attribution, not counted
+	}
 	changedAny := false
 	var firstViol *run.Outcome
 	note := func(o run.Outcome) {
-		if c != nil && c.KnownMatch(o.Class, o.Reason) {
+		if known(o.Class, o.Reason) {
 			cov["known-finding-instances:"+o.Class]++
 			return
 		}
@@ -173,7 +185,10 @@ passes:
 		rep := irstrict.Check(m2, p.profile)
 		for _, f := range rep.Findings {
 			class := f.Rule + ":" + normErr(f.Detail)
-			if c != nil && (c.KnownMatch("C09-inherited:"+class, "") || c.KnownMatch(p.name+":ill-formed:"+f.Rule, id+": "+f.Detail)) {
+			if known("C09-inherited:"+class, "") {
+				continue
+			}
+			if known(p.name+":ill-formed:"+f.Rule, id+": "+f.Detail) {
 				continue
 			}
 			if isLoweringFinding(class) {
@@ -278,7 +293,19 @@ func traits(prog *wgen.Program) string {
 	}
 	// precise AST traits used to attribute known inliner defects
 	helperRetInCF, helperLocals, callInLoop, helperCall, voidCall := false, false, false, false, false
+	aggParamEffects := false
 	for _, f := range prog.M.Funcs() {
+		if f.Stage == "" {
+			agg := false
+			for _, p := range f.Params {
+				if p.Ty != nil && !p.Ty.IsScalar() && p.Ty.Kind != wgen.KPtr {
+					agg = true
+				}
+			}
+			if agg && funcHasEffects(f.Body) {
+				aggParamEffects = true
+			}
+		}
 		var walk func(b []wgen.Stmt, inCF, inLoop bool)
 		walk = func(b []wgen.Stmt, inCF, inLoop bool) {
 			for _, st := range b {
@@ -340,6 +367,9 @@ func traits(prog *wgen.Program) string {
 	if helperLocals && callInLoop {
 		t = append(t, "helper-locals+call-in-loop")
 	}
+	if aggParamEffects {
+		t = append(t, "helper-aggregate-param+effects")
+	}
 	sort.Strings(t)
 	return fmt.Sprint(t)
 }
@@ -347,4 +377,35 @@ func traits(prog *wgen.Program) string {
 func c13Viol(c *run.Ctx, id, pass, kind, detail, src string, prog *wgen.Program) run.Outcome {
 	return run.Outcome{V: run.Violated, Class: pass + ":" + kind, Reason: fmt.Sprintf("%s traits=%s pass %s: %s: %s", id, traits(prog), pass, kind, detail),
 		Witness: map[string]any{"wgsl": src, "pass": pass}}
+}
+
+// funcHasEffects: the body assigns through something other than a plain local reference, or calls a helper
+// (which may do so): the conditions under which re-reading an aliased aggregate argument can observe a change (F101).
+func funcHasEffects(b []wgen.Stmt) bool {
+	found := false
+	var walk func(b []wgen.Stmt)
+	walk = func(b []wgen.Stmt) {
+		for _, st := range b {
+			switch x := st.(type) {
+			case *wgen.Assign:
+				if x.LHS != nil {
+					found = true
+				}
+			case *wgen.IncDec, *wgen.CallS:
+				found = true
+			}
+			for _, sl := range wgen.StmtExprSlots(st) {
+				wgen.WalkExpr(*sl, func(e wgen.Expr) {
+					if _, ok := e.(*wgen.CallE); ok {
+						found = true
+					}
+				})
+			}
+			for _, nb := range wgen.StmtBlocks(st) {
+				walk(*nb)
+			}
+		}
+	}
+	walk(b)
+	return found
 }
